@@ -184,7 +184,9 @@ func (cs *ColumnSeries) Remove(targetName string) error {
 	}
 	var newNames []string
 	for _, name := range cs.orderedNames {
-		if !strings.EqualFold(name, targetName) {
+		// exact match, like the lookup above and the delete below: a column whose name differs
+		// from the target only in case is a different column and stays
+		if name != targetName {
 			newNames = append(newNames, name)
 		}
 	}
